@@ -21,6 +21,8 @@ import (
 	"os"
 	"os/signal"
 	"path/filepath"
+	"runtime/debug"
+	"runtime/pprof"
 	"sort"
 	"strings"
 	"sync/atomic"
@@ -39,20 +41,27 @@ var (
 	workRoot = "/verif/.work/c33/run"
 	verbose  = flag.Bool("v", false, "print the node logs of the reference run")
 	onlyK    = flag.Int("k", -1, "debug: run only this crash point (verbose)")
+	onlyK2   = flag.Int("k2", -1, "debug: with -k, run only this second crash point (verbose)")
 	dumpLog  = flag.Bool("units", false, "print the persistence-unit log of the reference run")
+	onlySc   = flag.String("scenario", "", "debug: run only the scenarios with this name prefix")
+	cpuprof  = flag.String("cpuprofile", "", "debug: write a CPU profile")
 	sigterms atomic.Int64
 )
 
 var abciInfo = abci.RequestInfo{}
+var stopProf = func() {}
 
 var kvKind = &appKind{
-	name: "kvstore",
+	name:    "kvstore",
+	chainID: "c33-chain",
+	plan: func() ([][]string, error) {
+		return [][]string{{"k1=v1"}, {"k2=v2", "k3=v3"}, {"k4=v4"}, {"k5=v5"}}, nil
+	},
 	newApp: func(db *crashdb.DB, lg *slog.Logger) (*appInst, error) {
 		a := kvstore.NewVerifPersistentKVStore(db)
 		a.SetLogger(lg)
 		return &appInst{app: a, height: func() (int64, []byte) {
-			// a fresh instance sees what is on "disk"
-			i := kvstore.NewVerifPersistentKVStore(db).Info(abciInfo)
+			i := a.Info(abciInfo)
 			return i.LastBlockHeight, i.LastBlockAppHash
 		}}, nil
 	},
@@ -66,9 +75,37 @@ func installClock() {
 	tmtime.VerifClock.Store(&f)
 }
 
-// snapAt returns the persistent state after `k` units of life lf completed, with the WAL file at length walLen.
-func snapAt(lf *life, k int, walLen int64) snap {
-	rec := lf.rec
+// pair = two lives booted from the same persistent state: a flushes the WAL lazily (only where the code asks
+// for it), b additionally flushes after every single Write (the wall-clock flush ticker firing as often as it can).
+// Their unit sequences must be identical; only the on-disk WAL lengths differ.
+type pair struct{ a, b *life }
+
+func runPair(from snap, dir string, sc scenario, epoch int, verb bool) pair {
+	return pair{
+		a: runLife(from, nodeOpts{dir: dir + "-a", kind: sc.kind, epoch: epoch, verbose: verb}),
+		b: runLife(from, nodeOpts{dir: dir + "-b", kind: sc.kind, epoch: epoch, flushEvery: true}),
+	}
+}
+
+func (p pair) consistent() (bool, string) {
+	if p.a.outcome != p.b.outcome {
+		return false, "outcome " + p.a.outcome + " vs " + p.b.outcome
+	}
+	if ok, why := sameUnits(p.a.rec.units, p.b.rec.units); !ok {
+		return false, why
+	}
+	if p.a.final == nil || p.b.final == nil || !bytes.Equal(p.a.final.wal, p.b.final.wal) {
+		return false, "final WAL bytes differ"
+	}
+	if fmt.Sprint(*p.a.obs) != fmt.Sprint(*p.b.obs) {
+		return false, "final observations differ"
+	}
+	return true, ""
+}
+
+// snapAt returns the persistent state after `k` units of the pair's life completed, with the WAL file at length walLen.
+func (p pair) snapAt(k int, walLen int64) snap {
+	rec := p.a.rec
 	if k == 0 {
 		return rec.base
 	}
@@ -78,26 +115,79 @@ func snapAt(lf *life, k int, walLen int64) snap {
 		st:  append(append([]crashdb.Unit{}, rec.base.st...), rec.st.Units[:u.St]...),
 		app: append(append([]crashdb.Unit{}, rec.base.app...), rec.app.Units[:u.App]...),
 		pv:  rec.pvStates[u.Pv],
+		wal: append([]byte{}, p.a.final.wal[:walLen]...),
 	}
-	if walLen >= 0 && lf.final.wal != nil && (walLen > 0 || u.WalDisk > 0 || walSeen(rec.units[:k])) {
-		s.wal = append([]byte{}, lf.final.wal[:walLen]...)
+	s.walIdx = append(s.walIdx, rec.base.walIdx...)
+	for _, bu := range p.b.rec.units {
+		if bu.Comp == "wal" && bu.MsgH > 0 && bu.WalDisk <= walLen {
+			s.walIdx = append(s.walIdx, walMsg{End: bu.WalDisk, H: bu.MsgH})
+		}
+	}
+	s.sigs = append(s.sigs, rec.base.sigs...)
+	for _, sg := range rec.sigs {
+		if sg.Unit <= k {
+			s.sigs = append(s.sigs, sg)
+		}
 	}
 	return s
 }
 
-func walSeen(us []unitRec) bool {
-	for _, u := range us {
-		if u.Comp == "wal" {
-			return true
-		}
-	}
-	return false
+type crashCase struct {
+	k       int
+	walLen  int64
+	variant string // disk | flushed | mid
+	ph      string // description of the last completed unit
+	ctx     []string
+	from    snap
 }
 
-type crashCase struct {
-	k      int
-	walLen int64
-	variant string // disk | flushed | mid
+// crashCases enumerates every crash point of the pair's life: (k, on-disk WAL length) for every k, de-duplicated
+// on the resulting persistent state.
+func crashCases(p pair, allBoundaries bool) (todo []crashCase, total int) {
+	ua, ub := p.a.rec.units, p.b.rec.units
+	bset := map[int64]bool{}
+	for _, u := range ub {
+		bset[u.WalDisk] = true
+	}
+	var bounds []int64
+	for b := range bset {
+		bounds = append(bounds, b)
+	}
+	sort.Slice(bounds, func(i, j int) bool { return bounds[i] < bounds[j] })
+	seen := map[string]bool{}
+	add := func(k int, l int64, v string) {
+		total++
+		s := p.snapAt(k, l)
+		if key := s.key(); !seen[key] {
+			seen[key] = true
+			c := crashCase{k: k, walLen: l, variant: v, from: s, ph: "start"}
+			if k > 0 {
+				c.ph = ua[k-1].Comp + ":" + ua[k-1].Desc
+				for i := max(0, k-6); i < k; i++ {
+					c.ctx = append(c.ctx, unitLine(i, ua[i]))
+				}
+			}
+			todo = append(todo, c)
+		}
+	}
+	for k := 0; k <= len(ua); k++ {
+		lo, hi := int64(len(p.a.rec.base.wal)), int64(len(p.a.rec.base.wal))
+		if k > 0 {
+			lo, hi = ua[k-1].WalDisk, ub[k-1].WalDisk
+		}
+		add(k, lo, "disk")
+		if hi != lo {
+			add(k, hi, "flushed")
+			if allBoundaries {
+				for _, b := range bounds {
+					if b > lo && b < hi {
+						add(k, b, "mid")
+					}
+				}
+			}
+		}
+	}
+	return
 }
 
 func unitLine(i int, u unitRec) string {
@@ -123,6 +213,7 @@ type scenario struct {
 	name      string
 	kind      *appKind
 	clockJump bool // restarted node's clock is one hour later
+	depth2    int  // 0: single crashes only; 1: second crash for first crashes up to height 2; 2: for all
 }
 
 func main() {
@@ -135,14 +226,31 @@ func main() {
 			sigterms.Add(1)
 		}
 	}()
+	debug.SetGCPercent(400)
 	installClock()
+	if *cpuprof != "" {
+		f, _ := os.Create(*cpuprof)
+		pprof.StartCPUProfile(f)
+		defer pprof.StopCPUProfile()
+		stopProf = pprof.StopCPUProfile
+	}
 	workRoot = filepath.Join("/verif/.work/c33", "run-"+r.Tier+fmt.Sprint(os.Getpid()))
 	os.RemoveAll(workRoot)
-	defer os.RemoveAll(workRoot)
 
-	scs := []scenario{{name: "kvstore/frozen-clock", kind: kvKind}}
+	scs := []scenario{{name: "kvstore/frozen-clock", kind: kvKind, depth2: 1}}
 	if r.Thorough() {
-		scs = append(scs, scenario{name: "kvstore/clock+1h-after-restart", kind: kvKind, clockJump: true})
+		scs[0].depth2 = 2
+		scs = append(scs, scenario{name: "kvstore/clock+1h-after-restart", kind: kvKind, clockJump: true},
+			scenario{name: "gnoland/frozen-clock", kind: gnoKind})
+	}
+	if *onlySc != "" {
+		var f []scenario
+		for _, sc := range append(scs, scenario{name: "gnoland/frozen-clock", kind: gnoKind}) {
+			if strings.HasPrefix(sc.name, *onlySc) && (len(f) == 0 || f[len(f)-1].name != sc.name) {
+				f = append(f, sc)
+			}
+		}
+		scs = f
 	}
 	cov := map[string]any{}
 	var layouts []any
@@ -164,108 +272,132 @@ func main() {
 		"privval save is one atomic unit (its inner crash points are C34's)",
 	}
 	os.RemoveAll(workRoot)
-	r.Finish("crash point = (number k of completed persistence units of the uncrashed run, on-disk WAL length); distinct = distinct persistent states (DB prefix lengths, WAL length, privval file); non-trivial = every state except the empty one", exhaustive, cov)
+	stopProf()
+	r.Finish("crash point = (number k of completed persistence units of the run, on-disk WAL length), for the uncrashed run and (second crash) for every recovery run; distinct = distinct persistent states (DB prefix lengths, WAL length, privval file) per crash history; non-trivial = every state except the empty one", exhaustive, cov)
 }
 
 func runScenario(sc scenario) (layout map[string]any, exhaustive bool) {
 	clockEpoch.Store(0)
-	// reference run A (lazy WAL flushing) and B (flush after every write); same unit sequence required
-	refA := runLife(snap{}, nodeOpts{dir: filepath.Join(workRoot, sc.name, "refA"), kind: sc.kind, verbose: *verbose})
-	refB := runLife(snap{}, nodeOpts{dir: filepath.Join(workRoot, sc.name, "refB"), kind: sc.kind, flushEvery: true})
+	ref := runPair(snap{}, filepath.Join(workRoot, sc.name, "ref"), sc, 0, *verbose)
 	refC := runLife(snap{}, nodeOpts{dir: filepath.Join(workRoot, sc.name, "refC"), kind: sc.kind})
-	for _, ref := range []*life{refA, refB, refC} {
-		if ref.outcome != "done" || ref.obs == nil || ref.obs.StoreH != lastHeight {
-			r.HarnessError("reference run did not reach height %d: outcome=%s errs=%v obs=%+v", lastHeight, ref.outcome, ref.errLogs, ref.obs)
+	for _, l := range []*life{ref.a, ref.b, refC} {
+		if l.outcome != "done" || l.obs == nil || l.obs.StoreH != lastHeight {
+			r.HarnessError("reference run did not reach height %d: outcome=%s errs=%v obs=%+v", lastHeight, l.outcome, l.errLogs, l.obs)
 		}
 	}
 	if *dumpLog {
-		for i, u := range refA.rec.units {
-			fmt.Println(unitLine(i, u), " flushedWal=", refB.rec.units[i].WalDisk)
+		for i, u := range ref.a.rec.units {
+			fmt.Println(unitLine(i, u), " flushedWal=", ref.b.rec.units[i].WalDisk)
 		}
 	}
-	if ok, why := sameUnits(refA.rec.units, refB.rec.units); !ok {
+	if ok, why := ref.consistent(); !ok {
 		r.HarnessError("reference runs A/B differ (nondeterminism): %s", why)
 	}
-	if ok, why := sameUnits(refA.rec.units, refC.rec.units); !ok {
+	if ok, why := (pair{ref.a, refC}).consistent(); !ok {
 		r.HarnessError("reference runs A/C differ (nondeterminism): %s", why)
 	}
-	if !bytes.Equal(refA.final.wal, refB.final.wal) || !bytes.Equal(refA.final.wal, refC.final.wal) || fmt.Sprint(*refA.obs) != fmt.Sprint(*refC.obs) {
-		r.HarnessError("reference runs differ in WAL bytes / final observation (nondeterminism)")
-	}
+	refA := ref.a
 	N := len(refA.rec.units)
-	// WAL message boundaries = on-disk lengths of run B
-	bset := map[int64]bool{0: true}
-	for _, u := range refB.rec.units {
-		bset[u.WalDisk] = true
-	}
-	var bounds []int64
-	for b := range bset {
-		bounds = append(bounds, b)
-	}
-	sort.Slice(bounds, func(i, j int) bool { return bounds[i] < bounds[j] })
-
-	// crash cases
-	var cases []crashCase
-	for k := 0; k <= N; k++ {
-		var lo, hi int64
-		if k > 0 {
-			lo, hi = refA.rec.units[k-1].WalDisk, refB.rec.units[k-1].WalDisk
-		}
-		cases = append(cases, crashCase{k, lo, "disk"})
-		if hi != lo {
-			cases = append(cases, crashCase{k, hi, "flushed"})
-			if r.Thorough() {
-				for _, b := range bounds {
-					if b > lo && b < hi {
-						cases = append(cases, crashCase{k, b, "mid"})
-					}
-				}
-			}
-		}
-	}
+	todo, total := crashCases(ref, r.Thorough())
 	if *onlyK >= 0 {
 		var cc []crashCase
-		for _, c := range cases {
+		for _, c := range todo {
 			if c.k == *onlyK {
 				cc = append(cc, c)
 			}
 		}
-		cases = cc
-	}
-	// dedup on the persistent state
-	seen := map[string]bool{}
-	var todo []crashCase
-	for _, c := range cases {
-		s := snapAt(refA, c.k, c.walLen)
-		if key := s.key(); !seen[key] {
-			seen[key] = true
-			todo = append(todo, c)
-		}
+		todo = cc
 	}
 	if sc.clockJump {
 		clockEpoch.Store(1)
 	}
-	var ran atomic.Int64
 	comp := map[string]int{}
 	for _, u := range refA.rec.units {
 		comp[u.Comp]++
 	}
+	var ran atomic.Int64
+	lives := make([]*life, len(todo))
 	r.ParFor(len(todo), func(i int) {
 		c := todo[i]
-		checkCrash(sc, refA, c)
+		dir := filepath.Join(workRoot, sc.name, fmt.Sprintf("k%04d-%s-%d", c.k, c.variant, c.walLen))
+		lives[i] = runLife(c.from, nodeOpts{dir: dir, kind: sc.kind, epoch: 1, verbose: *onlyK >= 0 && *onlyK2 < 0})
+		os.RemoveAll(dir)
 		ran.Add(1)
 	})
-	clockEpoch.Store(0)
+	// oracle, sequentially in crash-point order: the first report of a class is its minimal crash point
+	okLife := make([]bool, len(todo))
+	for i, c := range todo {
+		if lives[i] != nil {
+			okLife[i] = checkCrash(sc, refA, []crashCase{c}, lives[i])
+		}
+	}
 	exhaustive = int(ran.Load()) == len(todo) && *onlyK < 0
 	layout = map[string]any{
-		"scenario": sc.name, "units": N, "units_by_component": comp, "crash_points": len(cases),
+		"scenario": sc.name, "units": N, "units_by_component": comp, "crash_points": total,
 		"distinct_persistent_states": len(todo), "recoveries_run": ran.Load(),
-		"wal_bytes": len(refA.final.wal), "wal_message_boundaries": len(bounds),
+		"wal_bytes": len(refA.final.wal),
 		"reference": map[string]any{"blocks": refA.obs.BlockIDs, "app_hashes": refA.obs.AppHashes, "txs": refA.obs.Txs, "final_app_hash": refA.obs.StateAppHash, "signatures": len(refA.rec.sigs)},
 	}
 	if len(refA.errLogs) > 0 {
 		layout["reference_error_logs"] = dedupStrings(refA.errLogs)
 	}
+
+	// second crash: every crash point of every (healthy) recovery run
+	if sc.depth2 > 0 && !sc.clockJump {
+		var firsts, total2, states2, ran2, nondet int64
+		for i, c := range todo {
+			if lives[i] == nil || !okLife[i] {
+				continue
+			}
+			if l := lives[i]; sc.depth2 == 1 && !(l.pre[0] == 1 && (l.pre[0] != l.pre[1] || l.pre[1] != l.pre[2])) {
+				// quick: a second crash only after the first crashes inside the commit of block 1 (block saved,
+				// state and/or application not yet): the recoveries that go through the handshake's replay paths
+				continue
+			}
+			if r.Expired() {
+				exhaustive = false
+				break
+			}
+			dir := filepath.Join(workRoot, sc.name, fmt.Sprintf("k%04d-%s-%d", c.k, c.variant, c.walLen))
+			b := runLife(c.from, nodeOpts{dir: dir + "-b", kind: sc.kind, epoch: 1, flushEvery: true})
+			os.RemoveAll(dir + "-b")
+			p := pair{lives[i], b}
+			if ok, why := p.consistent(); !ok {
+				nondet++
+				r.HarnessError("recovery run after crash %d (%s) is not deterministic: %s", c.k, c.ph, why)
+			}
+			firsts++
+			todo2, t2 := crashCases(p, false)
+			if *onlyK2 >= 0 {
+				var cc []crashCase
+				for _, c2 := range todo2 {
+					if c2.k == *onlyK2 {
+						cc = append(cc, c2)
+					}
+				}
+				todo2 = cc
+			}
+			total2 += int64(t2)
+			states2 += int64(len(todo2))
+			lives2 := make([]*life, len(todo2))
+			r.ParFor(len(todo2), func(j int) {
+				c2 := todo2[j]
+				d2 := fmt.Sprintf("%s-x-k%04d-%s-%d", dir, c2.k, c2.variant, c2.walLen)
+				lives2[j] = runLife(c2.from, nodeOpts{dir: d2, kind: sc.kind, epoch: 2, verbose: *onlyK2 >= 0})
+				os.RemoveAll(d2)
+				atomic.AddInt64(&ran2, 1)
+			})
+			for j, c2 := range todo2 {
+				if lives2[j] != nil {
+					checkCrash(sc, refA, []crashCase{c, c2}, lives2[j])
+				} else {
+					exhaustive = false
+				}
+			}
+		}
+		layout["second_crash"] = map[string]any{"first_crashes_expanded": firsts, "crash_points": total2, "distinct_persistent_states": states2}
+	}
+	clockEpoch.Store(0)
 	return layout, exhaustive
 }
 
@@ -281,50 +413,85 @@ func dedupStrings(in []string) []string {
 	return out
 }
 
-// phase names a unit position for stable violation keys: the description of the last completed unit.
-func phase(ref *life, k int) string {
-	if k == 0 {
-		return "start"
-	}
-	u := ref.rec.units[k-1]
-	return u.Comp + ":" + u.Desc
-}
-
-func checkCrash(sc scenario, ref *life, c crashCase) {
-	from := snapAt(ref, c.k, c.walLen)
-	dir := filepath.Join(workRoot, sc.name, fmt.Sprintf("k%04d-%s-%d", c.k, c.variant, c.walLen))
-	lf := runLife(from, nodeOpts{dir: dir, kind: sc.kind, epoch: 1, verbose: *onlyK >= 0})
+// checkCrash applies the oracle to the life lf that was booted after the crash history `hist` (1 or 2 crashes).
+// It returns true when the recovery was flawless.
+func checkCrash(sc scenario, ref *life, hist []crashCase, lf *life) (ok bool) {
+	c := hist[len(hist)-1]
+	from := c.from
 	r.Eval()
-	if c.k > 0 {
-		r.Distinct(sc.name + from.key())
+	var hk []string
+	var hd []any
+	for _, h := range hist {
+		hk = append(hk, fmt.Sprintf("%d/%d", h.k, h.walLen))
+		hd = append(hd, map[string]any{"crash_after_unit": h.k, "last_unit": h.ph, "wal_variant": h.variant, "wal_len": h.walLen, "units_before_crash": h.ctx})
 	}
-	ph := phase(ref, c.k)
+	if c.k > 0 || len(hist) > 1 {
+		r.Distinct(sc.name + strings.Join(hk, ">") + from.key())
+	}
+	depth := fmt.Sprintf("crash%d", len(hist))
 	detail := map[string]any{
-		"scenario": sc.name, "crash_after_unit": c.k, "last_unit": ph, "wal_variant": c.variant, "wal_len": c.walLen,
+		"scenario": sc.name, "crashes": hd,
 		"outcome": lf.outcome, "heights_at_boot(store,state,app)": lf.pre, "after_handshake": lf.post,
 		"error_logs": dedupStrings(lf.errLogs), "obs": lf.obs, "ref": ref.obs,
 	}
-	if c.k > 0 && c.k <= len(ref.rec.units) {
-		lo := c.k - 6
-		if lo < 0 {
-			lo = 0
-		}
-		var ctx []string
-		for i := lo; i < c.k; i++ {
-			ctx = append(ctx, unitLine(i, ref.rec.units[i]))
-		}
-		detail["units_before_crash"] = ctx
-	}
+	ok = true
 	bad := func(class string) {
-		r.Violation(fmt.Sprintf("%s|%s|after=%s|wal=%s", sc.name, class, ph, c.variant), detail)
+		ok = false
+		if len(hist) > 1 {
+			class = "second-crash: " + class
+		}
+		r.Violation(class, detail)
 	}
-	skew := fmt.Sprintf("boot-skew store-state=%+d state-app=%+d", lf.pre[0]-lf.pre[1], lf.pre[1]-lf.pre[2])
+	skew := fmt.Sprintf("%s boot-skew store-state=%+d state-app=%+d", depth, lf.pre[0]-lf.pre[1], lf.pre[1]-lf.pre[2])
 	r.Outcome(skew)
-	if c.k%17 == 3 {
-		r.Sample(map[string]any{"crash_after_unit": c.k, "last_unit": ph, "wal": c.variant, "boot_heights": lf.pre, "outcome": lf.outcome})
+	if (c.k+len(hist))%37 == 3 {
+		r.Sample(map[string]any{"crashes": hd, "boot_heights": lf.pre, "outcome": lf.outcome})
 	}
+	ph := c.ph
+	_ = ph
 
-	// 1. restart succeeds
+	// 1. restart succeeds: boot + handshake + WAL catch-up replay, and the node goes on to height 4
+	catchup, signErr := "", false
+	for _, e := range lf.errLogs {
+		if strings.Contains(e, "Error on catchup replay") {
+			// the WAL-replay half of the recovery did not happen: the node goes on WITHOUT its pre-crash messages
+			msg := e
+			if i := strings.Index(msg, "err="); i >= 0 {
+				msg = msg[i+4:]
+			}
+			catchup = strings.Map(func(c rune) rune {
+				if c >= '0' && c <= '9' {
+					return 'N'
+				}
+				return c
+			}, msg)
+		}
+		if strings.Contains(e, "Error signing") {
+			signErr = true
+		}
+	}
+	atInitial := lf.post[1] == 0 // the restarted consensus is at the chain's first height
+	lost := 0                    // consensus messages of the restarted height that are on disk in the WAL
+	for _, m := range from.walIdx {
+		if m.H == lf.post[1]+1 {
+			lost++
+		}
+	}
+	if catchup != "" {
+		r.Outcome(depth + " catchup replay error: " + catchup)
+		switch {
+		case !strings.Contains(catchup, "cannot replay height"):
+			bad("wal-catchup-replay-failed: " + catchup)
+		case lost == 0:
+			// documented window (crash between SaveBlock and the WAL height marker; the handshake applied the
+			// block): the marker is missing, but there is nothing to replay for the new height yet.
+			r.Outcome(depth + " catchup replay skipped, nothing to replay (benign)")
+		case atInitial:
+			bad("wal-catchup-replay-impossible-at-initial-height: " + catchup)
+		default:
+			bad("wal-messages-of-current-height-not-replayed: " + catchup)
+		}
+	}
 	if lf.outcome != "done" {
 		cl := lf.outcome
 		if i := strings.Index(cl, "Block:"); i > 0 {
@@ -339,8 +506,18 @@ func checkCrash(sc scenario, ref *life, c crashCase) {
 				break
 			}
 		}
-		bad("restart-failed:" + cl)
-		r.Outcome("restart failed")
+		if lf.outcome == "stuck" && catchup != "" && lost > 0 && signErr {
+			// no WAL replay => the node re-enters round 0 from scratch, the privval (correctly) refuses to sign
+			// again below its last signed step => a single validator can never move: the chain is halted for good
+			if atInitial {
+				bad("node-halted-after-restart: initial height, no WAL replay, privval refuses to re-sign")
+			} else {
+				bad("node-halted-after-restart: no WAL replay (height marker missing), privval refuses to re-sign")
+			}
+		} else {
+			bad("restart-failed: " + cl)
+		}
+		r.Outcome(depth + " restart failed: " + lf.outcome)
 		return
 	}
 	for _, e := range lf.errLogs {
@@ -349,24 +526,6 @@ func checkCrash(sc scenario, ref *life, c crashCase) {
 			bad("consensus-failure-after-restart")
 		case strings.Contains(e, "Error on ApplyBlock"):
 			bad("applyblock-error-after-restart")
-		case strings.Contains(e, "Error on catchup replay"):
-			// the WAL replay half of the recovery did not happen: the node went on WITHOUT its pre-crash messages
-			msg := e
-			if i := strings.Index(msg, "err="); i >= 0 {
-				msg = msg[i+4:]
-			}
-			msg = strings.Map(func(c rune) rune {
-				if c >= '0' && c <= '9' {
-					return 'N'
-				}
-				return c
-			}, msg)
-			r.Outcome("catchup replay error: " + msg)
-			if lf.post[1] == 0 {
-				bad("wal-catchup-replay-failed-at-initial-height:" + msg)
-			} else {
-				bad("wal-catchup-replay-failed:" + msg)
-			}
 		}
 	}
 	// 2. the handshake reconciled the three heights
@@ -417,16 +576,17 @@ func checkCrash(sc scenario, ref *life, c crashCase) {
 		}
 	}
 	if maxRound > 0 {
-		r.Outcome(fmt.Sprintf("recovered chain needed round %d", maxRound))
+		r.Outcome(fmt.Sprintf("%s recovered chain needed round %d", depth, maxRound))
 	}
 	// 4. the signer never signs two different things for the same height/round/step across the crash
 	byHRS := map[string]sigRec{}
 	pre := 0
-	for _, s := range ref.rec.sigs {
-		if s.Unit <= c.k {
-			byHRS[s.hrs()] = s
-			pre++
+	for _, s := range from.sigs {
+		if p, dup := byHRS[s.hrs()]; dup && (!bytes.Equal(p.SignBytes, s.SignBytes) || !bytes.Equal(p.Sig, s.Sig)) {
+			bad("double-sign " + s.Kind)
 		}
+		byHRS[s.hrs()] = s
+		pre++
 	}
 	resigned := 0
 	for _, s := range lf.rec.sigs {
@@ -437,7 +597,7 @@ func checkCrash(sc scenario, ref *life, c crashCase) {
 			if !bytes.Equal(p.SignBytes, s.SignBytes) || !bytes.Equal(p.Sig, s.Sig) {
 				detail["conflict"] = map[string]string{"hrs": s.hrs(), "before": hex.EncodeToString(p.SignBytes), "after": hex.EncodeToString(s.SignBytes)}
 				bad("double-sign " + s.Kind)
-			} else if p.Epoch == 0 {
+			} else if p.Epoch < s.Epoch {
 				resigned++
 			}
 		} else {
@@ -445,10 +605,10 @@ func checkCrash(sc scenario, ref *life, c crashCase) {
 		}
 	}
 	if resigned > 0 {
-		r.Outcome("same-HRS signature re-released identically")
+		r.Outcome(depth + " same-HRS signature re-released identically")
 	}
-	r.Outcome("recovered to the uncrashed chain")
-	if r.Violations() == 0 {
-		os.RemoveAll(dir)
+	if ok {
+		r.Outcome(depth + " recovered to the uncrashed chain")
 	}
+	return ok
 }
